@@ -95,3 +95,88 @@ func firstDiff(a, b string) string {
 	}
 	return "(equal)"
 }
+
+// TestVerifC10Configs: check (directory), diff (ties among rename candidates) and scan (both
+// back ends) as fresh processes for GOMAXPROCS in {1,2,16} x 3 repetitions.
+func TestVerifC10Configs(t *testing.T) {
+	r := vh.New("process-repetitions")
+	defer r.Write()
+	scratch := vh.Env("SCRATCH")
+	sfw := filepath.Join(vh.Env("UNITDIR"), "sfw")
+	if _, err := os.Stat(sfw); err != nil {
+		r.Fail("sfw binary missing: %v", err)
+		return
+	}
+	base := func(id string) progfam.Base {
+		for _, b := range progfam.Bases() {
+			if b.ID == id {
+				return b
+			}
+		}
+		panic(id)
+	}
+	mk := func(dir string, names, shapes []string) string {
+		var fs []string
+		for i, n := range names {
+			fs = append(fs, progfam.Rename(base(shapes[i]).Src, "F", n))
+		}
+		os.MkdirAll(dir, 0o755)
+		p := filepath.Join(dir, "f.go")
+		os.WriteFile(p, []byte(progfam.RenderFile(fs)), 0o644)
+		return p
+	}
+	oldF := mk(filepath.Join(scratch, "d", "old"), []string{"A", "B", "C", "D", "E", "F6"}, []string{"upcount", "upcount", "ifelse", "strings", "closure", "closure"})
+	newF := mk(filepath.Join(scratch, "d", "new"), []string{"A2", "B2", "C", "D2", "E2", "F7"}, []string{"upcount", "upcount", "ifelse", "strings", "closure", "closure"})
+	tree := filepath.Join(scratch, "tree")
+	mk(filepath.Join(tree, "p1"), []string{"Handle", "Other"}, []string{"upcount", "strings"})
+	mk(filepath.Join(tree, "p2"), []string{"Handle", "More"}, []string{"ifelse", "switch"})
+	mk(filepath.Join(tree, "p3"), []string{"Handle"}, []string{"upcount"})
+	mk(filepath.Join(tree, "p4", "q"), []string{"Deep", "Deeper"}, []string{"nestedloops", "bits"})
+	dbJSON := filepath.Join(scratch, "sigs.json")
+	dbPebble := filepath.Join(scratch, "sigs.db")
+	for _, db := range []string{dbJSON, dbPebble} {
+		for _, pk := range []string{"p1", "p2", "p4/q"} {
+			if out, err := exec.Command(sfw, "index", "--name", "Fam"+strings.ReplaceAll(pk, "/", ""), "--db", db, filepath.Join(tree, pk, "f.go")).CombinedOutput(); err != nil {
+				r.Fail("sfw index: %v %s", err, out)
+				return
+			}
+		}
+	}
+	cmds := []struct {
+		name string
+		args []string
+	}{
+		{"diff", []string{"diff", "--no-sandbox", oldF, newF}},
+		{"check-dir", []string{"check", "--no-sandbox", tree}},
+		{"check-dir-scan", []string{"check", "--no-sandbox", "--scan", "--db", dbJSON, tree}},
+		{"scan-json", []string{"scan", "--no-sandbox", "--db", dbJSON, "--threshold", "0.5", tree}},
+		{"scan-pebble", []string{"scan", "--no-sandbox", "--db", dbPebble, "--threshold", "0.5", tree}},
+		{"scan-pebble-exact", []string{"scan", "--no-sandbox", "--db", dbPebble, "--exact", tree}},
+	}
+	for ci, c := range cmds {
+		if !vh.Mine(ci) {
+			continue
+		}
+		baseline := ""
+		distinct := map[string]bool{}
+		for _, gmp := range []int{1, 2, 16} {
+			for rep := 0; rep < 3; rep++ {
+				out, err := cfgRun(sfw, gmp, c.args...)
+				r.Eval()
+				if err != nil {
+					r.Fail("%s: %v", c.name, err)
+					return
+				}
+				if baseline == "" {
+					baseline = out
+				}
+				distinct[out] = true
+				if out != baseline {
+					r.Violate(fmt.Sprintf("rerun/%s/GOMAXPROCS=%d/run%d", c.name, gmp, rep), fmt.Sprintf("sfw %s: output differs from the first run\n%s", c.name, firstDiff(baseline, out)), map[string]interface{}{"cmd": c.name})
+				}
+			}
+		}
+		r.Nontrivial(c.name)
+		r.Sample(map[string]interface{}{"command": c.name, "runs": 9, "distinct_outputs": len(distinct), "output_bytes": len(baseline)})
+	}
+}
